@@ -1,3 +1,5 @@
+//go:build !verif
+
 package main
 
 // Pure harnesses (no scheduler, no overlay needed): compiled into every binary.
